@@ -10,6 +10,7 @@ import SvgVerif.Model.Lexer
 import SvgVerif.Model.Serializer
 import SvgVerif.Model.BBox
 import SvgVerif.Model.Radial
+import SvgVerif.Model.Enclose
 /-! Correspondence driver: one operation per input line, one canonical result per
 output line.  Run as `lake env lean --run Driver.lean < ops.txt`.  The Python
 harness feeds the same operations to the real svgpathtools code and diffs. -/
@@ -342,6 +343,19 @@ def handle (cmd : String) (args : List String) : String :=
       let starts := PathOps.rot1 (res.map (·.1))
       " ".intercalate ((res.zip starts).map fun (s, nx) => if s.2 = nx then "1" else "0")
     | none => "bad-args"
+  | "contained" =>
+    match args with
+    | [c, b, n] =>
+      match n.toNat? with
+      | some n => toString (Enclose.isContainedBy (c == "1") (b == "1") n)
+      | none => "bad-args"
+    | _ => "bad-args"
+  | "encloses" =>
+    match args with
+    | [n] => match n.toNat? with
+      | some n => toString (Enclose.enclosesPt n)
+      | none => "bad-args"
+    | _ => "bad-args"
   | "bezradial" =>    -- 1-D stub: dist t = |c0 + c1 t + c2 t^2|; args: c0 c1 c2 | roots
     match splitBar args with
     | [[c0, c1, c2], rs] =>
